@@ -1066,6 +1066,24 @@ def sched_ops(case, rp):
                         return dict(confirmed=True, detail='; '.join(probs[:3]),
                                     input=dict(nodes=nodes, task=task['description']),
                                     found_by='small-scope native enumeration (%d cases)' % n)
+    # giving up ("can never be scheduled") only when nothing is running
+    for active in (1, 2, 3):
+        nodes = [{'index': 0, 'name': 'n0', 'cores': [0.0] * 4, 'gpus': [0.0], 'lfs': 0, 'mem': 0}]
+        c = mk_sched(rp, nodes, 4, 1)
+        c._active_cnt = 0
+        c.slot_status = lambda *a, **k: None
+        for i in range(active):
+            c._try_allocation(mk_atask(1, 1, uid='run.%d' % i))
+        big = mk_atask(1, 4, uid='big')
+        try:
+            r = c._try_allocation(big)
+            if r is not False:
+                return dict(confirmed=True, detail='a 4-core task was granted on a 4-core node with %d cores busy' % active,
+                            input=dict(active=active))
+        except Exception as e:
+            return dict(confirmed=True, detail='with %d task(s) running a 4-core task that fits the idle 1x4 pilot is given up: %r' % (active, e),
+                        input=dict(nodes='1 node x 4 cores', running='%d one-core tasks' % active, request='1 rank x 4 cores'),
+                        found_by='directed native scenario')
     # many completions pending at once (the drain loop bulks up to 512+)
     probs = sched_mass_release(rp, 600)
     if probs:
@@ -1261,11 +1279,18 @@ def rm_nodes(case, rp):
     return dict(confirmed=False, detail='%d node-list cases hold natively' % n)
 
 
+_FRAG_CACHE = dict()
+
+
 def exec_fragment(rp, rel, qualname, prefix, env):
     """run one statement of the real function text (the `fragment` of a spec)
     natively in the given environment"""
     import ast, os, textwrap
     path = os.path.join(os.path.dirname(rp.__file__), rel)
+    ck = (path, qualname, prefix)
+    if ck in _FRAG_CACHE:
+        exec(_FRAG_CACHE[ck], env)
+        return env
     src = open(path).read()
     tree = ast.parse(src)
     if prefix.startswith('marker:'):
@@ -1275,10 +1300,16 @@ def exec_fragment(rp, rel, qualname, prefix, env):
     else:
         hit = [n for n in ast.walk(tree) if isinstance(n, ast.stmt) and
                (ast.get_source_segment(src, n) or '').startswith(prefix)]
+        if len(hit) > 1:
+            fns = [n for n in ast.walk(tree) if isinstance(n, ast.FunctionDef)
+                   and n.name == qualname.split('.')[-1]]
+            hit = [n for f in fns for n in ast.walk(f) if isinstance(n, ast.stmt) and
+                   (ast.get_source_segment(src, n) or '').startswith(prefix)]
     assert len(hit) == 1, 'fragment %r matches %d statements' % (prefix, len(hit))
     lines = src.split('\n')[hit[0].lineno - 1:hit[0].end_lineno]
     code = textwrap.dedent('\n'.join(lines))
-    exec(compile(code, path, 'exec'), env)
+    _FRAG_CACHE[ck] = compile(code, path, 'exec')
+    exec(_FRAG_CACHE[ck], env)
     return env
 
 
